@@ -530,9 +530,10 @@ class SchedWaiter(object):
         self.sched.yield_point(what)
 
 
-def simulate_connection(conn, sched, name):
+def simulate_connection(conn, sched, name, tables=False):
     """replace the connection's three lock objects by scheduler-aware ones with the semantics of the originals
-    (a re-entrant original gets a re-entrant stand-in, so changing the KIND of a lock is not masked by the simulation)"""
+    (a re-entrant original gets a re-entrant stand-in, so changing the KIND of a lock is not masked by the simulation);
+    tables=True: the lock of the table of lent objects as well (needed when code under that lock is pre-empted)"""
     import threading
     rlock_type = type(threading.RLock())
 
@@ -541,6 +542,8 @@ def simulate_connection(conn, sched, name):
     conn._recvlock = like(conn._recvlock, name + ".recvlock")
     conn._sendlock = like(conn._sendlock, name + ".sendlock")
     conn._recv_event = SimCondition(sched, name + ".recv_event")
+    if tables:
+        conn._local_objects._lock = like(conn._local_objects._lock, name + ".local_objects.lock")
     return conn
 
 
